@@ -166,18 +166,37 @@ class NameLookupRewriteVisitor(NodeTransformerBase):
             return self.apply_transform(node)
         return node
 
+    def visit_NamedExpr(self, node: ast.NamedExpr) -> ast.AST:
+        node.value = self.visit(node.value)
+        # The name is bound in the enclosing lambda or function (a
+        # comprehension is passed over), else where the transform
+        # stores names.
+        for scope in reversed(self.scopes[1:]):
+            if not isinstance(scope, frozenset):
+                scope.add(node.target.id)
+                break
+        target = self.visit(node.target)
+        if isinstance(target, ast.Subscript):
+            # (container.__setitem__(key, __value := value), __value)[1]
+            setitem = ast.Attribute(target.value, "__setitem__", ast.Load())
+            node.target = store("__value")
+            call = ast.Call(setitem, [target.slice, node], [])
+            pair = ast.Tuple([call, load("__value")], ast.Load())
+            return ast.Subscript(pair, ast.Constant(1), ast.Load())
+        return node
+
     def visit_ListComp(self, node: ast.AST) -> ast.AST:
         # The targets are local to the comprehension; only the first
         # iterable is evaluated in the enclosing scope.
         first = node.generators[0]  # type: ignore[attr-defined]
         iterable = self.visit(first.iter)
         first.iter = ast.Constant(None)
-        self.scopes.append({
+        self.scopes.append(frozenset(  # type: ignore[arg-type]
             name.id
             for generator in node.generators  # type: ignore[attr-defined]
             for name in ast.walk(generator.target)
             if isinstance(name, ast.Name)
-        })
+        ))
         try:
             return super().generic_visit(node)
         finally:
